@@ -169,9 +169,9 @@ theorem unimplemented_no_rhs_error (op : ArithOp) (m : MapD) (rhs : Opd) (t1 : N
 
 /-- `x op= y` on a map with the `@op=` entry: called with (self := x, arg := y); the variable keeps
 the left operand (the callee's value is discarded); errors propagate; no fallback to `@op` -/
-theorem compound_own_key (op : ArithOp) (m : MapD) (rhs : Opd) (tag : Name) (b : Beh)
+theorem compound_own_key (op : ArithOp) (m : MapD) (rhs : Opd) (same : Bool) (tag : Name) (b : Beh)
     (h : m.metaGet op.akey = some (tag, .fn b)) :
-    compound op (.map m) rhs = ⟨[⟨tag, .mk op.akey, m.av, [rhs.av]⟩],
+    compound op (.map m) rhs same = ⟨[⟨tag, .mk op.akey, m.av, [rhs.av]⟩],
       match b.run m.av with
       | .ret _ => .ok m.av
       | r => r.pass⟩ := by
@@ -180,18 +180,19 @@ theorem compound_own_key (op : ArithOp) (m : MapD) (rhs : Opd) (tag : Name) (b :
   cases hb : b.run m.av <;> simp
 
 /-- as implemented there is *no* fallback from `@op=` to `@op` followed by assignment -/
-theorem compound_no_fallback (op : ArithOp) (m : MapD) (rhs : Opd) (h : m.metaGet op.akey = none) :
-    compound op (.map m) rhs = ⟨[], .err (.binop op.akey)⟩ := by
+theorem compound_no_fallback (op : ArithOp) (m : MapD) (rhs : Opd) (same : Bool)
+    (h : m.metaGet op.akey = none) :
+    compound op (.map m) rhs same = ⟨[], .err (.binop op.akey)⟩ := by
   unfold compound
   simp [h]
 
 example : compound .add (.map { top := { name := 0, src := .own { tag := 0, ops := [(.Add, .fn (.ret (.int 1)))] } } })
-    (.prim .num) = ⟨[], .err (.binop .AddAssign)⟩ := by decide
+    (.prim .num) false = ⟨[], .err (.binop .AddAssign)⟩ := by decide
 
 /-- host object on the left, anything but a host object on the right: the method receives the operand -/
-theorem compound_host (op : ArithOp) (h : HostD) (rhs : Opd) (b : Beh)
+theorem compound_host (op : ArithOp) (h : HostD) (rhs : Opd) (same : Bool) (b : Beh)
     (hr : ∀ h2, rhs ≠ .host h2) (hi : h.impl.lookup op.ahm = some b) :
-    (compound op (.host h) rhs).trace = [⟨h.name, .host op.ahm, h.av, [rhs.av]⟩] := by
+    (compound op (.host h) rhs same).trace = [⟨h.name, .host op.ahm, h.av, [rhs.av]⟩] := by
   cases rhs with
   | host h2 => exact absurd rfl (hr h2)
   | prim k =>
@@ -203,38 +204,102 @@ theorem compound_host (op : ArithOp) (h : HostD) (rhs : Opd) (b : Beh)
     simp only [HostD.call, hi]
     cases b.hostRes h.av <;> simp [Opd.av]
 
-/-- Witness of the `o2.is_same_instance(o2)` guard (vm.rs run_compound_assign_op!): for *every* pair
-of host objects the right operand is copied first and the method receives the copy -/
-theorem compound_assign_object_copies_rhs (op : ArithOp) (h h2 : HostD) (b : Beh)
+/-- Compound assignment between two host objects (guard `o.is_same_instance(o2)`, fix 6cd88dc):
+two *different* objects — the method receives the right operand itself, nothing is copied;
+the *same* instance (`x op= x`) — the operand is copied first and the method receives the copy. -/
+theorem compound_assign_object_operand (op : ArithOp) (h h2 : HostD) (b : Beh)
     (hi : h.impl.lookup op.ahm = some b) :
-    (compound op (.host h) (.host h2)).trace =
+    (compound op (.host h) (.host h2) false).trace = [⟨h.name, .host op.ahm, h.av, [h2.av]⟩] ∧
+    (compound op (.host h) (.host h2) true).trace =
       [⟨h2.name, .copy, h2.av, []⟩, ⟨h.name, .host op.ahm, h.av, [.host h2.name (h2.gen + 1)]⟩] := by
   unfold compound
-  simp only [HostD.call, hi, HostD.av]
+  simp only [HostD.call, hi, HostD.av, Opd.av]
   cases b.hostRes (.host h.name h.gen) <;> simp
 
-/-- … which is not what the guard was meant to do for two different objects (negation witness) -/
-theorem compound_assign_object_self_bug_witness :
-    ∃ (op : ArithOp) (h h2 : HostD), h.name ≠ h2.name ∧
-      compound op (.host h) (.host h2) ≠ compoundIntended op (.host h) (.host h2) false :=
-  ⟨.add, { name := 0, impl := [(.addAssign, .ret .null)] }, { name := 1 }, by decide, by decide⟩
+/-- a copy is made exactly when both operands are the same instance — for every host×host pair,
+whatever the left object implements -/
+theorem compound_copy_iff_same (op : ArithOp) (h h2 : HostD) (same : Bool) :
+    (∃ e ∈ (compound op (.host h) (.host h2) same).trace, e.key = .copy) ↔ same = true := by
+  unfold compound
+  cases same
+  · simp only [HostD.call]
+    cases hl : h.impl.lookup op.ahm with
+    | none => simp
+    | some b => cases hb : b.hostRes h.av <;> simp [hb]
+  · simp only [HostD.call]
+    cases hl : h.impl.lookup op.ahm with
+    | none => simp
+    | some b => cases hb : b.hostRes h.av <;> simp [hb]
 
-/-- everywhere else the implemented decision list is the intended one -/
-theorem compound_matches_intended_partial (op : ArithOp) (lhs rhs : Opd) (same : Bool)
-    (hx : same = true ∨ (∀ h, lhs ≠ .host h) ∨ (∀ h2, rhs ≠ .host h2)) :
-    compound op lhs rhs = compoundIntended op lhs rhs same := by
+/-- Compound assignment hands every callee — metamap entry or host method, any operand kinds — the
+right operand itself as argument, unless both operands are the same host instance. (The full
+positive statement; before fix 6cd88dc it failed for distinct host×host pairs, see
+`compound_before_fix_differs`.) -/
+theorem compound_operand_is_rhs (op : ArithOp) (lhs rhs : Opd) (same : Bool)
+    (hx : same = false ∨ (∀ h, lhs ≠ .host h) ∨ (∀ h2, rhs ≠ .host h2)) :
+    ∀ e ∈ (compound op lhs rhs same).trace,
+      e.key ≠ .copy ∧ (e.key = .mk op.akey ∨ e.key = .host op.ahm → e.self = lhs.av ∧ e.args = [rhs.av]) := by
+  have hk : op.akey ≠ .Call := by cases op <;> decide
+  have hostcase : ∀ (h : HostD), ∀ e ∈ (match h.call op.ahm [rhs.av] with
+        | (t, .ok _) => (⟨t, .ok (Opd.host h).av⟩ : Out)
+        | (t, r) => ⟨t, r.pass⟩).trace,
+      e.key ≠ .copy ∧ (e.key = .mk op.akey ∨ e.key = .host op.ahm →
+        e.self = (Opd.host h).av ∧ e.args = [rhs.av]) := by
+    intro h e he
+    rcases hc : h.call op.ahm [rhs.av] with ⟨t, r⟩
+    have ht := hostcall_events h op.ahm [rhs.av]
+    rw [hc] at ht he
+    have he' : e ∈ t := by cases r <;> simpa using he
+    have := ht e he'
+    subst this
+    simp [Opd.av]
+  intro e he
   cases lhs with
-  | prim k => rfl
-  | map m => rfl
+  | prim k =>
+    unfold compound at he
+    cases k <;> cases rhs <;> (try rename_i k2; cases k2) <;> simp at he
+  | map m =>
+    unfold compound at he
+    simp only at he
+    cases hm : m.metaGet op.akey with
+    | none => simp [hm] at he
+    | some p =>
+      obtain ⟨tag, mv⟩ := p
+      simp only [hm] at he
+      rcases hi : invoke tag op.akey mv (Opd.map m).av [rhs.av] with ⟨t, r⟩
+      have hev := invoke_events tag op.akey mv (Opd.map m).av [rhs.av]
+      rw [hi] at hev he
+      have he' : e ∈ t := by cases r <;> simpa using he
+      rcases hev e he' with h1 | ⟨c, h1⟩
+      · subst h1; simp
+      · subst h1
+        refine ⟨by simp, ?_⟩
+        intro hkey
+        rcases hkey with hkey | hkey
+        · simp at hkey; exact absurd hkey.symm hk
+        · simp at hkey
   | host h =>
     cases rhs with
-    | prim k => rfl
-    | map m => rfl
+    | prim k => unfold compound at he; exact hostcase h e he
+    | map m2 => unfold compound at he; exact hostcase h e he
     | host h2 =>
       rcases hx with hx | hx | hx
-      · simp [compoundIntended, hx]
+      · subst hx
+        unfold compound at he
+        simp only [Bool.false_eq_true, if_false] at he
+        exact hostcase h e he
       · exact absurd rfl (hx h)
       · exact absurd rfl (hx h2)
+
+/-- what fix 6cd88dc changed (finding F-C17-1): the old guard copied the right operand of *every*
+host×host pair, so for two different objects the callee saw a copy -/
+theorem compound_before_fix_differs :
+    ∃ (op : ArithOp) (h h2 : HostD), h.name ≠ h2.name ∧
+      compoundBeforeFix op (.host h) (.host h2) ≠ compound op (.host h) (.host h2) false :=
+  ⟨.add, { name := 0, impl := [(.addAssign, .ret .null)] }, { name := 1 }, by decide, by decide⟩
+
+example : (compound .add (.host { name := 0, impl := [(.addAssign, .ret .null)] }) (.host { name := 1 }) false).trace
+    = [⟨0, .host .addAssign, .host 0 0, [.host 1 0]⟩] := by decide
 
 /-! ## comparisons -/
 
@@ -474,7 +539,7 @@ theorem type_chain_skip (pre rest : List Layer)
 for every operation of the model -/
 theorem shared_meta_same (a b : Opd) :
     (∀ op, arith op a.unshare b.unshare = arith op a b) ∧
-    (∀ op, compound op a.unshare b.unshare = compound op a b) ∧
+    (∀ op same, compound op a.unshare b.unshare same = compound op a b same) ∧
     (∀ op, compareOp op a.unshare b.unshare = compareOp op a b) ∧
     negate a.unshare = negate a ∧ notOp a.unshare = notOp a ∧ size a.unshare = size a ∧
     callOp a.unshare = callOp a ∧ forLoop a.unshare = forLoop a ∧ toList a.unshare = toList a ∧
@@ -495,7 +560,7 @@ theorem shared_meta_same (a b : Opd) :
   · intro op
     cases a <;> cases b <;>
       simp [Opd.unshare, arith, rhsDirect, rhsAfterUnimpl, mapRhs, hostRhs, unshare_metaGet, unshare_av, Opd.av]
-  · intro op
+  · intro op same
     cases a <;> cases b <;> simp [Opd.unshare, compound, unshare_metaGet, unshare_av, Opd.av]
   · intro op
     have heq : ∀ ne, equality ne a.unshare b.unshare = equality ne a b := by
@@ -651,7 +716,7 @@ example : (HostD.cmp { name := 0, impl := [(.less, .ret (.bool false)), (.equal,
 the right-hand side of an arithmetic operator -/
 theorem object_unimplemented_is_error (h : HostD) (hn : h.impl = []) :
     (∀ op (k : PrimK), ∃ e, arith op (.host h) (.prim k) = ⟨[], .err e⟩) ∧
-    (∀ op (rhs : Opd), (∀ h2, rhs ≠ .host h2) → compound op (.host h) rhs = ⟨[], .err .hostUnimpl⟩) ∧
+    (∀ op (rhs : Opd) same, (∀ h2, rhs ≠ .host h2) → compound op (.host h) rhs same = ⟨[], .err .hostUnimpl⟩) ∧
     (∀ op (rhs : Opd), rhs ≠ .prim .null → compareOp op (.host h) rhs = ⟨[], .err .hostUnimpl⟩) ∧
     negate (.host h) = ⟨[], .err .hostUnimpl⟩ ∧
     (∀ i, index (.host h) i = ⟨[], .err .hostUnimpl⟩) ∧
@@ -664,7 +729,7 @@ theorem object_unimplemented_is_error (h : HostD) (hn : h.impl = []) :
   refine ⟨?_, ?_, ?_, ?_, ?_, ?_, ?_, ?_, ?_, ?_, ?_⟩
   · intro op k
     exact ⟨.binop op.key, by simp [arith, HostD.call, hn, rhsAfterUnimpl]⟩
-  · intro op rhs hr
+  · intro op rhs same hr
     cases rhs with
     | host h2 => exact absurd rfl (hr h2)
     | prim k => simp [compound, HostD.call, hn, HostRes.pass]
@@ -709,6 +774,66 @@ theorem host_iteration_spec (h : HostD) :
   · intro hi; simp [forLoop, hostIterate, hi]
 
 
+/-! ## host objects defined with `#[koto_impl]` (crates/derive access tables) -/
+
+/-- `.` on a derived object follows the documented order: `#[koto_get_override]` when it answers,
+then the table of `#[koto_method]`s and `#[koto_get]`s (under every name and alias), then
+`#[koto_get_fallback]`; a key nobody answers is a "not found" error (never a silent `null`) -/
+theorem derived_access_order (d : DerivedD) (k : Key) :
+    (k ∈ d.getOverride.getD [] → (derivedAccess d k).res = .ok (.int 55)) ∧
+    (k ∉ d.getOverride.getD [] → (∃ f, d.methods.lookup k = some f) →
+      (derivedAccess d k).res = .ok .native) ∧
+    (∀ f, k ∉ d.getOverride.getD [] → d.methods.lookup k = none → d.getters.lookup k = some f →
+      (derivedAccess d k).res = .ok (.int 88) ∧ d.ev (.getter f) [] ∈ (derivedAccess d k).trace) ∧
+    (k ∉ d.getOverride.getD [] → d.methods.lookup k = none → d.getters.lookup k = none →
+      (derivedAccess d k).res =
+        if k ∈ d.getFallback.getD [] then .ok (.int 66) else .err .notFound) := by
+  refine ⟨?_, ?_, ?_, ?_⟩
+  · intro h; simp [derivedAccess, h]
+  · intro h ⟨f, hf⟩; simp [derivedAccess, h, hf]
+  · intro f h hm hg; simp [derivedAccess, h, hm, hg]
+  · intro h hm hg
+    simp only [derivedAccess]
+    cases hfb : d.getFallback with
+    | none => simp [h, hm, hg]
+    | some ks =>
+      by_cases hk : k ∈ ks
+      · simp [h, hm, hg, hk]
+      · simp [h, hm, hg, hk]
+
+/-- a `#[koto_method]` reached through `.` is called with the accessed object as instance and the
+call's arguments — under its name and under every alias -/
+theorem derived_method_instance (d : DerivedD) (k : Key) (f : Nat)
+    (h : k ∉ d.getOverride.getD []) (hm : d.methods.lookup k = some f) :
+    (derivedMethod d k).res = .ok (.int 77) ∧
+    (derivedMethod d k).trace.getLast? = some ⟨d.name, .dv (.method f), d.av, [.int 7]⟩ := by
+  simp [derivedMethod, derivedAccess, h, hm, DerivedD.ev]
+
+/-- assignment through `.`: `#[koto_set_override]`, then the `#[koto_set]` table, then
+`#[koto_set_fallback]`; a key nobody takes is an error -/
+theorem derived_assign_spec (d : DerivedD) (k : Key)
+    (h : k ∉ d.setOverride.getD []) (hs : d.setters.lookup k = none) :
+    (d.setFallback = none → (derivedAccessAssign d k).res = .err .unexpectedKey) ∧
+    (∀ ks, d.setFallback = some ks →
+      (derivedAccessAssign d k).res = if k ∈ ks then .ok .builtin else .err .hostErr) := by
+  refine ⟨?_, ?_⟩
+  · intro hf; simp [derivedAccessAssign, h, hs, hf]
+  · intro ks hf
+    by_cases hk : k ∈ ks <;> simp [derivedAccessAssign, h, hs, hf, hk]
+
+/-- … and a `#[koto_set]` entry (under its name or an alias) receives the value -/
+theorem derived_setter_called (d : DerivedD) (k : Key) (f : Nat)
+    (h : k ∉ d.setOverride.getD []) (hs : d.setters.lookup k = some f) :
+    (derivedAccessAssign d k).res = .ok .builtin ∧
+    (derivedAccessAssign d k).trace.getLast? = some (d.ev (.setter f) [.int 5]) := by
+  simp [derivedAccessAssign, h, hs]
+
+example : derivedMethod { name := 0, methods := [(5, 1), (6, 1)], getOverride := some [7] } 6
+    = ⟨[⟨0, .dv .getOverride, .host 0 0, [.key 6]⟩, ⟨0, .dv (.method 1), .host 0 0, [.int 7]⟩], .ok (.int 77)⟩ := by
+  decide
+example : (derivedAccess { name := 0, getters := [(7, 1)] } 10).res = .err .notFound := by decide
+
+
 /-! ## display and type -/
 
 /-- `@display` is used for rendering and must return a String; without it the rendering is the
@@ -749,13 +874,13 @@ theorem operand_keys_distinct (op : ArithOp) :
 whenever the operator's entry is a function it is called exactly once with (self := lhs, arg := rhs)
 — collected from `compound_own_key`, `cmp_own_key`, `unary_own_key` -/
 theorem operand_order_other (m : MapD) (rhs : Opd) (tag : Name) (b : Beh) :
-    (∀ op, m.metaGet op.akey = some (tag, .fn b) →
-      (compound op (.map m) rhs).trace = [⟨tag, .mk op.akey, m.av, [rhs.av]⟩]) ∧
+    (∀ op same, m.metaGet op.akey = some (tag, .fn b) →
+      (compound op (.map m) rhs same).trace = [⟨tag, .mk op.akey, m.av, [rhs.av]⟩]) ∧
     (∀ op, rhs ≠ .prim .null → m.metaGet (CmpOp.key op) = some (tag, .fn b) →
       (compareOp op (.map m) rhs).trace = [⟨tag, .mk op.key, m.av, [rhs.av]⟩]) ∧
     (m.metaGet .Negate = some (tag, .fn b) → (negate (.map m)).trace = [⟨tag, .mk .Negate, m.av, []⟩]) := by
   refine ⟨?_, ?_, ?_⟩
-  · intro op h; rw [compound_own_key op m rhs tag b h]
+  · intro op same h; rw [compound_own_key op m rhs same tag b h]
   · intro op hn h; rw [cmp_own_key op m rhs tag b h hn]
   · intro h; rw [(unary_own_key m tag b).1 h]
 
